@@ -19,6 +19,17 @@ META["C02"] = dict(
   note="Trusted: the extensional model. Aliasing of Unroll is asserted for Go-backed views only (the property states it for those).",
   technique="property-based testing (rapid) against an extensional reference model; metamorphic fast-path vs general-path agreement")
 
+META["C03"] = dict(
+  text="Differential property test: the C01/C02 generated cases run on both back-ends with every observation compared, the C buffer guarded by canaries and inaccessible pages so that an out-of-buffer access faults or is seen; and (b) RunSingleModel through the exported entry point against the Go API. Exploration.",
+  design_ref="DESIGN.md section 4, C03",
+  note="Trusted: the mmap/mprotect guard set-up; writes through slices returned by Unroll are excluded from the lock-step (C views unroll to copies by design).",
+  technique="differential property-based testing (rapid) Go back-end vs C back-end, with guard pages")
+META["C04"] = dict(
+  text="Differential property test over the whole catalogue: the generated vectorised Run is compared bit-for-bit with independent single-cell runs for every combination of cell / parameter-set / input-block counts, plus sentinel checks on everything Run must not touch. Exploration over generated configurations; all 41 models are drawn (thorough iterates them round-robin).",
+  design_ref="DESIGN.md section 4, C04",
+  note="The single-cell reference goes through the same generated wrapper with N=1 (where modulo broadcasting and cell offsets are vacuous); kernels are trusted only to be deterministic (C14 checks that).",
+  technique="differential property-based testing (rapid): vectorised run vs independent single-cell runs")
+
 import os, sys
 sys.path.insert(0, os.path.dirname(os.path.abspath(__file__)))
 from checks_config import CHECKS
